@@ -130,10 +130,21 @@ def build(script, obs_lines):
         out.append(line("obs", t=o["t"], ev=[norm_event(e) for e in o["ev"]], sid=script["id"]))
     if -1 in byi and len(byi) == len(script["steps"]) + 1:
         o = byi[-1]
+        # the epilogue lets every connection be read again, then closes the server, without waiting in between
+        stalled = []
+        for st in script["steps"]:
+            for x in ([st] + list(st.get("multi") or [])):
+                if x["op"] == "stall" and x["conn"] not in stalled:
+                    stalled.append(x["conn"])
+                elif x["op"] == "unstall" and x["conn"] in stalled:
+                    stalled.remove(x["conn"])
+        stalled = [c for c in stalled if c not in void]
+        for j, c in enumerate(stalled):
+            out.append(line("stim", op="unstall", conn=c, sid=script["id"], racy=j > 0))
         if closed:
-            out.append(line("stim", op="nop", sid=script["id"]))
+            out.append(line("stim", op="nop", sid=script["id"], racy=bool(stalled)))
         else:
-            out.append(line("stim", op="close", id="afin", sid=script["id"]))
+            out.append(line("stim", op="close", id="afin", sid=script["id"], racy=bool(stalled)))
         out.append(line("obs", t=o["t"], ev=[norm_event(e) for e in o["ev"]], sid=script["id"]))
     return out
 
